@@ -243,6 +243,9 @@ def install(reg):
     reg.ext_models["mimetypes.guess_type"] = m_guess_type
     reg.ext_models["mimetypes.guess_extension"] = m_guess_extension
     reg.ext_models["importlib.import_module"] = m_import_module
+    # module globals that functions assign (`global X`) are cells with an inferred value set (pyvc/exprs.py::read_global_cell):
+    # a hand-written memo of the router functions is as transparent as `lru_cache(maxsize=1)`; what cannot be inferred is unknown
+    reg.global_cells = True
 
 
 from pyvc.symex import Executor  # noqa: E402
